@@ -82,6 +82,8 @@ def chopper_cases(draw, with_pulses=False):
         "int_edges": draw(st.sampled_from([False, False, True])),
         # whole-number frequencies handed over as integer variables (sc.scalar(14, unit='Hz'))
         "int_freq": draw(st.sampled_from([False, False, True])),
+        # beam position / phase as whole degrees in integer variables (seeded/C10-s3)
+        "int_angles": draw(st.sampled_from([False, False, True])),
     }
     if case["int_freq"]:
         case["fp"] = float(max(1, round(fp)))
@@ -119,6 +121,12 @@ def build(case, slits=None):
             b_st, e_st, edge_dtype = bi, ei, "int64"
     bp_st = _stored(case["bp"], A_UNITS[case["bp_unit"]])
     ph_st = _stored(case["phase"], A_UNITS[case["phase_unit"]])
+    bp_dtype = ph_dtype = "float64"
+    if case.get("int_angles"):
+        if case["bp_unit"] == "deg":
+            bp_st, bp_dtype = float(round(bp_st)), "int64"
+        if case["phase_unit"] == "deg":
+            ph_st, ph_dtype = float(round(ph_st)), "int64"
     def freq_var(value, unit):
         if case.get("int_freq") and float(value).is_integer() and abs(value) < 2**53:
             return sc.scalar(int(value), unit=unit, dtype="int64")
@@ -131,8 +139,8 @@ def build(case, slits=None):
     kwargs = {
         "axle_position": sc.vector([0.0, 0.0, 5.0], unit="m"),
         "frequency": freq_var(f_st, case["f_unit"]),
-        "beam_position": sc.scalar(bp_st, unit=case["bp_unit"]),
-        "phase": sc.scalar(ph_st, unit=case["phase_unit"]),
+        "beam_position": sc.scalar(int(bp_st) if bp_dtype == "int64" else bp_st, unit=case["bp_unit"], dtype=bp_dtype),
+        "phase": sc.scalar(int(ph_st) if ph_dtype == "int64" else ph_st, unit=case["phase_unit"], dtype=ph_dtype),
         "slit_begin": sc.array(dims=["slit"], values=b_st, unit=case["slit_unit"], dtype=edge_dtype),
         "slit_end": sc.array(dims=["slit"], values=e_st, unit=case["slit_unit"], dtype=edge_dtype),
     }
@@ -214,6 +222,7 @@ def check_openings(case):
     kwargs, pulse, ref = build(case)
     labs.append("edges:" + ref["edge_dtype"])
     labs.append(f"freq:{kwargs['frequency'].dtype}/pulse:{pulse.dtype}")
+    labs.append(f"bp:{kwargs['beam_position'].dtype}/phase:{kwargs['phase'].dtype}")
     ch = DiskChopper(**kwargs)
     to = ch.time_offset_open(pulse_frequency=pulse)
     tc = ch.time_offset_close(pulse_frequency=pulse)
@@ -270,6 +279,7 @@ def bad_frequency_cases(draw):
     else:
         r = draw(st.sampled_from([1.5, 2.5, 2 / 3, 0.4, 0.75, 3.5, 1.25, 7.5, 0.3, 4.5, 1.1, 0.9]))
     case["kind"] = kind
+    case["valid_call_first"] = draw(st.booleans())
     case["f_override"] = case["sign"] * case["fp"] * r
     # a single frequency unit: conversion rounding must not move the quotient
     case["f_unit"] = case["fp_unit"]
@@ -282,6 +292,20 @@ def check_bad_frequency(case):
     kwargs, pulse, _ = build(case)
     ch = DiskChopper(**kwargs)
     labs = ["kind:" + case["kind"], f"ratio:{case['num']}/{case['den']}"]
+    if case.get("valid_call_first"):
+        # the same chopper object is first used with a pulse frequency that is exactly in phase; the
+        # decision about the detuned one must not depend on that earlier call (seeded/C10-s4)
+        import scipp as sc
+
+        exact = sc.scalar(abs(kwargs["frequency"].value) * case["den"] / case["num"] / (1.0 if case["kind"] == "noninteger" else 1.0),
+                          unit=kwargs["frequency"].unit)
+        if case["kind"] != "noninteger":
+            # chopper frequency = ratio * (1 + delta) * pulse: use the pulse frequency that makes the ratio exact
+            try:
+                ch.time_offset_open(pulse_frequency=exact)
+                labs.append("valid-call-first")
+            except ValueError:
+                labs.append("valid-call-first:rejected")
     results = {}
     for name in ("time_offset_open", "time_offset_close", "open_duration"):
         try:
